@@ -98,6 +98,9 @@ func (e *Envelope) VerifySignature(sig *dsig.Signature, keys ...*dsig.PublicKey)
 }
 
 func (e *Envelope) verifySignature(sig *dsig.Signature, keys ...*dsig.PublicKey) error {
+	if sig == nil {
+		return errors.New("missing signature")
+	}
 	if len(keys) == 0 {
 		// no keys provided, only check the contents
 		h := new(head.Header)
@@ -131,7 +134,7 @@ func (e *Envelope) ValidateWithContext(ctx context.Context) error {
 		validation.Field(&e.Schema, validation.Required),
 		validation.Field(&e.Head, validation.Required),
 		validation.Field(&e.Document, validation.Required), // this will also check payload
-		validation.Field(&e.Signatures),
+		validation.Field(&e.Signatures, validation.Each(validation.Required)),
 	)
 	if err != nil {
 		return wrapError(err)
